@@ -47,7 +47,20 @@ class ExprFieldRefModel(ExprModel):
         visitor.visit_expr_fieldref(self)
         
     def val(self):
-        return self.fm.val
+        return ExprFieldRefModel.field_val(self.fm)
+    
+    @staticmethod
+    def field_val(fm):
+        """Numeric value of a field (a signed list element may be stored 
+        as the bit pattern that it was assigned)"""
+        v = fm.val
+        try:
+            if fm.is_signed and int(v) >= (1 << (fm.width-1)):
+                from vsc.model.value_scalar import ValueScalar
+                return ValueScalar(int(v) - (1 << fm.width))
+        except Exception:
+            pass
+        return v
         
     def __str__(self):
         return "Field: " + self.fm.name
